@@ -86,10 +86,11 @@ T2 = (" T2: the integer-only functions named here are translated from the source
 EXTRA = {
  "C01": " As translated from the source (T2): Eisel-Lemire compute_float::<f64> never overflows, shifts out of range, indexes outside its table or fails a debug assertion for any i64 exponent and u64 significand; codepoint_to_utf8 writes only the first four bytes of its buffer; hex_to_u32_nocheck's table indices are in range for all bytes; BitMask::clear_high_bits panics exactly outside its documented domain; parse_floating_normal_fast panics only when the middle word of its 192-bit product is all ones (a lattice search over all significands and table entries finds no such input; evidence, not proof)." + T2,
  "C03": " As translated from the source (T2): Meta::pack_dom_node / unpack_dom_node round-trip every child index below 2^29 and length below 2^32." + T2,
- "C07": " As translated from the source (T2): parse_floating_normal_fast (the 19-digit fast path after yyjson) returns, whenever it returns Some, the correctly rounded finite normal binary64 of man*10^exp10 for every exponent the guard admits and every non-zero 64-bit significand (product arithmetic against the 128-bit table, every table entry within one unit of the exact power, ties impossible on this path); compute_float::<f64> always yields e = -1 or a biased exponent in [0,2047] with a fraction below 2^53, and biased_fp_to_float assembles exactly that field and fraction." + T2,
+ "C07": " As translated from the source (T2): parse_floating_normal_fast (the 19-digit fast path after yyjson) returns, whenever it returns Some, the correctly rounded finite normal binary64 of man*10^exp10 for every exponent the guard admits and every non-zero 64-bit significand (product arithmetic against the 128-bit table, every table entry within one unit of the exact power, ties impossible on this path), and that result is exactly Spec.Num.round_pos, the oracle of the correspondence run (normal_fast_agrees_with_oracle); compute_float::<f64> always yields e = -1 or a biased exponent in [0,2047] with a fraction below 2^53, and biased_fp_to_float assembles exactly that field and fraction." + T2,
  "C09": " As translated from the source (T2): hex_to_u32_nocheck is the table expression of the hex theorems and codepoint_to_utf8 writes the reference UTF-8 encoding of every code point up to U+10FFFF, nothing for larger values." + T2,
  "C10": " As translated from the source (T2): get_escaped_branchless_u64 computes the escaped-byte bitmap of the specification for every word and carry." + T2,
- "C17": " As translated from the source (T2): the portable prefix_xor is the running parity on every 64-bit word; get_escaped_branchless_u32/u64 are the bit-list model on every word and carry; the BitMask helpers (first_offset = lowest set bit, all_zero, clear_high_bits = mod 2^(LEN-n)) never panic inside their domain; is_whitespace is the four JSON blanks." + T2,
+ "C20": " As translated from the source (T2): Position::from_index (the loop over the prefix) never overflows its counters and returns the line / column model for every offset and every input shorter than 2^63 bytes." + T2,
+ "C17": " As translated from the source (T2): the portable get_nonspace_bits is the lane-wise classifier on every block; the portable prefix_xor is the running parity on every 64-bit word; get_escaped_branchless_u32/u64 are the bit-list model on every word and carry; the BitMask helpers (first_offset = lowest set bit, all_zero, clear_high_bits = mod 2^(LEN-n)) never panic inside their domain; is_whitespace is the four JSON blanks." + T2,
 }
 NOTE_FIX = {
  "C02": "The DOM parser's acceptance (parse_value/array/object) is validated by the correspondence, not transcribed; simdutf8 is modelled by Spec.Ref.utf8_valid (proved equal to the byte automaton of the Unicode standard). Both directions of the skipper and of the strict reference parser are theorems (skip_text_iff, strict_text_iff).",
